@@ -132,6 +132,10 @@ def finish(rep, pid, extra_cov=None, level_note=None):
         for k in known.get("findings", []):
             if k["property"] == pid and re.search(k["function"], fn.sig.dem) and (not k.get("obligation") or any(k["obligation"] in f["property"] or k["obligation"] in f["description"] for f in fails)):
                 kf = k
+        if res is None and meta.get("has_input") and (fn.aid is None or ARCHS[fn.aid][3]):
+            # the replay program itself did not build or run: an infrastructure problem, never a verdict
+            rep.infra.append({"fn": fn.sig.dem, "detail": "replay of %s did not build/run: %s" % (f0["property"], str(out)[-300:])})
+            continue
         if res is not None and res.get("pre") == 1 and res.get("post") == 0:
             verdict = "reproduced"
         elif res is not None and res.get("post") == 1 and is_post and t["mode"] == "concrete":
@@ -210,7 +214,7 @@ def unexpected_undecided(pid, rep):
 
 def run_value_property(pid, tier, seed, only_archs=None, only_ops=None, only_types=None):
     cfg = PROPS[pid]
-    archs = list(DEFINING_ARCHS) if tier == "quick" else list(X86_ARCHS)
+    archs = list(DEFINING_ARCHS) if tier == "quick" else list(X86_ARCHS) + ["emu128"]
     if only_archs:
         archs = only_archs
     ops = only_ops or (cfg.get("quick_ops") if tier == "quick" and cfg.get("quick_ops") else cfg["ops"])
